@@ -241,6 +241,7 @@ def check_codec(ctx, layout, dsl, encoder, decoder, names, rows, named=True):
         entry = decoder.loads(encoder.dumps(layout.Outcome(schema, rows)))
         back = [[v.item() if hasattr(v, 'item') else v for v in r] for r in entry.data.to_rows()]
         backnames = [f.name for f in entry.schema]
+        backkinds = [type(f.kind).__name__ for f in entry.schema]
     except Exception as err:  # pylint: disable=broad-except
         if encoder.encoding.kind == 'text/csv' and len(names) == 1 and all(isinstance(r[0], str) and r[0] and not r[0].strip() for r in rows):
             ctx.violation(K_CSV_BLANK, f'{encoder.encoding.header}: single-column table {rows} of blank cells only decodes to nothing: '
@@ -265,6 +266,14 @@ def check_codec(ctx, layout, dsl, encoder, decoder, names, rows, named=True):
     if back != rows or (named and backnames != list(names)):
         ctx.violation('codec-roundtrip', f'{encoder.encoding.header}: {names} {rows} -> {backnames} {back}',
                       {'encoding': encoder.encoding.header, 'names': names, 'rows': rows})
+        return
+    # the table is its rows AND its schema: the kinds the decoded entry declares are those of the values it carries (tables
+    # of the same column names and other kinds have been decoded before this one in the same process)
+    ctx.count('codec_kinds_checked')
+    wanted = [type(k).__name__ for k in kinds]
+    if rows and backkinds != wanted:
+        ctx.violation('codec-roundtrip-schema-kinds', f'{encoder.encoding.header}: {names} {rows} decoded with the right rows but a '
+                      f'schema declaring {backkinds}, the values are {wanted}', {'encoding': encoder.encoding.header, 'names': names, 'rows': rows})
 
 
 def run(ctx):
@@ -388,4 +397,8 @@ def replay(ctx, witness):
     elif 'rows' in witness:
         for encoder, decoder, label in roundtrip_pairs(layout, codec, dsl):
             if encoder.encoding.header == witness['encoding']:
+                # the history that matters: tables of the same column names and other kinds decoded earlier in the process
+                for filler in (1, 0.5, 'u'):
+                    check_codec(ctx, layout, dsl, encoder, decoder, witness['names'], [[filler] * len(witness['names'])] * 2,
+                                named='data only' not in label)
                 check_codec(ctx, layout, dsl, encoder, decoder, witness['names'], witness['rows'], named='data only' not in label)
